@@ -61,3 +61,9 @@ Fixpoint msc_seq (m : mscstep float) (l : list (float * bool * float * float))
     (called, mstep s1, mstep s2) :: msc_seq m1 r
   end.
 Definition run_msc (l : list (float * bool * float * float)) := msc_seq (mkMsc 0%float 0%float) l.
+
+(** calc_physics_step_limit given the look-ups: (step, action code) *)
+Definition run_physlimit (stopped : bool) (mfp xs : float) (has_eloss : bool)
+           (eloss_step fixed : float) (no_processes : bool) :=
+  let '(st, a) := calc_physics_step_limit stopped mfp xs has_eloss eloss_step fixed no_processes in
+  (st, paction_code a).
